@@ -104,6 +104,20 @@ def run_prop(prop, tier, jobs=None):
                     trusted_base=getattr(mod, "TRUSTED_BASE", None))
 
 
+def run_prop_retry(prop, tier):
+    """run_prop; an exception of the infrastructure itself (cache directory removed by a concurrent run, ...) is retried once."""
+    import time
+    for attempt in (1, 2):
+        try:
+            return run_prop(prop, tier)
+        except Exception:
+            if attempt == 2:
+                traceback.print_exc()
+                print("%s: the checker itself failed twice (not a verdict on /repo)" % prop)
+                return 2
+            time.sleep(2)
+
+
 def main(argv):
     tier = os.environ.get("VERIF_TIER", "quick")
     if "--tier" in argv:
@@ -115,12 +129,12 @@ def main(argv):
         if prop not in PROPS:
             print("unknown property", prop)
             return 2
-        return run_prop(prop, tier)
+        return run_prop_retry(prop, tier)
     rc = 0
     for p in PROPS:
         try:
             importlib.import_module("rules." + p.lower())
         except ModuleNotFoundError:
             continue
-        rc |= run_prop(p, tier)
+        rc |= run_prop_retry(p, tier)
     return rc
